@@ -27,13 +27,17 @@ CHECKS = {
         "text": "Machine-checked theorems about MajorInst.build (the Lean model of solve_major_model's construction) for every instance and every "
                 "feasible point: per-configuration allele counts equal the structure (CSAT), every observed core variant is carried XOR novel, "
                 "at most one novel non-insertion variant per site, copy selectors ordered, error rows equal observed minus called copies, helpers "
-                "dominate |error|, objective = sum of helpers + novelty penalties (closed form, tight at optima by abssum_exact), novelty flag exact. "
+                "dominate |error|, objective = sum of helpers + novelty penalties (closed form, tight at optima by abssum_exact), novelty flag exact; "
+                "the feasible set is an ANTICHAIN (major_active_antichain: if the active copy selectors of one feasible point are contained in "
+                "another's, the two points agree on every binary - selectors by the structure equalities, OR / XOR / novel flags as functions of "
+                "them), which is exactly the hypothesis under which C05 run_T6 gives: every combination within the gap is reported, once. "
                 "Tie: on every run the model the real code hands to CBC (captured through the MPSolver API at the first solve) is compared with "
                 "MajorInst.build of the same instance, _filter_alleles with filterAlleles, and an independent exhaustive oracle over all allele "
                 "multisets checks score, optimality, gap-completeness and uniqueness of the real return (C05's loop theorems carry the enumeration).",
         "design_ref": "DESIGN.md section 4 (C02), 3.2",
-        "note": "Optimality/completeness rest on C05 (Run theorems) plus the exhaustive oracle on generated instances; the antichain bridge "
-                "(decision part determined by the allele multiset) is proved only for copy ordering and XOR-determined novelty flags.",
+        "note": "Optimality/completeness = C05's Run theorems (each solve returns a true optimum: CBC trusted, cross-checked by the exhaustive "
+                "oracle on generated instances) + the antichain theorem, under the hypothesis that every candidate allele's configuration is part "
+                "of the structure (what _filter_alleles guarantees; compared with filterAlleles on every run).",
         "technique": "Lean 4 proof over the constraint builder + captured-model structural correspondence + exhaustive spec oracle",
     },
     "C03": {
